@@ -50,6 +50,18 @@ pub fn model(piece: Piece, from: Square, to: u64) -> Vec<Move> {
     out
 }
 
+fn it_clone_from(pm: PieceMoves, taken: usize) -> PieceMovesIter {
+    let mut it = pm.into_iter();
+    for _ in 0..taken {
+        it.next();
+    }
+    it
+}
+
+fn taken_of(it: &PieceMovesIter, total: usize) -> usize {
+    total - it.len()
+}
+
 pub fn check_batch(piece: Piece, from: Square, to: u64, consumed: usize, others: [Square; 2]) -> CaseResult {
     let pm = PieceMoves { piece, from, to: BitBoard(to) };
     let fail = |sig: &str, msg: String| {
@@ -92,6 +104,24 @@ pub fn check_batch(piece: Piece, from: Square, to: u64, consumed: usize, others:
         }
         taken += 1;
     }
+    // nth on the partially consumed iterator, including out of range, and the state it leaves
+    {
+        let mut it2 = it_clone_from(pm, taken);
+        for k in [0usize, 2, 5, 300] {
+            let before = want.len() - taken_of(&it2, want.len());
+            let _ = before;
+            let pos = want.len() - it2.len();
+            let nth = it2.nth(k);
+            let expect = got.get(pos + k).copied(); // the order plain next() produces; no order is prescribed
+            if nth != expect {
+                return Err(fail("C17:iterator-nth", format!("nth({}) at position {} = {:?}, stepping with next() gives {:?}", k, pos, nth, expect)));
+            }
+            let remaining = want.len().saturating_sub(pos + k + 1);
+            if it2.len() != remaining {
+                return Err(fail("C17:iterator-nth", format!("after nth({}) at position {} len() = {}, {} moves remain", k, pos, it2.len(), remaining)));
+            }
+        }
+    }
     let rest = it.count();
     if taken + rest != want.len() {
         return Err(fail("C17:iterator-count", format!("{} taken + {} remaining != {}", taken, rest, want.len())));
@@ -113,7 +143,7 @@ pub fn check_batch(piece: Piece, from: Square, to: u64, consumed: usize, others:
 
 pub fn run(ctx: &Ctx) -> Report {
     let mut rep = Report::new(ctx);
-    rep.rule = "PieceMoves { piece, from, to } for generated (piece in 6 kinds, origin in 64 squares, destination set from a bit-pattern generator with extra weight on ranks 1/8, mixed promotion/non-promotion sets, single bits, empty/full) plus k = number of next() calls already made. Model: destinations ascending, four promotion moves (N,B,R,Q) for a pawn on rank 1/8, one plain move otherwise. Checked: iteration multiset, len(), is_empty(), ExactSizeIterator::len()/size_hint after each of the first k steps, and has(m) for ALL 64 destinations x 7 promotion values for the batch origin and two other origins (1344 queries per batch). Non-trivial = pawn batch with a back-rank destination, or partially consumed iterator (k>0 and moves left); distinct by hash of (piece, from, to, k).".into();
+    rep.rule = "PieceMoves { piece, from, to } for generated (piece in 6 kinds, origin in 64 squares, destination set from a bit-pattern generator with extra weight on ranks 1/8, mixed promotion/non-promotion sets, single bits, empty/full) plus k = number of next() calls already made. Model: destinations ascending, four promotion moves (N,B,R,Q) for a pawn on rank 1/8, one plain move otherwise. Checked: iteration multiset, len(), is_empty(), ExactSizeIterator::len()/size_hint after each of the first k steps, nth() (incl. out of range) against plain next() stepping, and has(m) for ALL 64 destinations x 7 promotion values for the batch origin and two other origins (1344 queries per batch). Non-trivial = pawn batch with a back-rank destination, or partially consumed iterator (k>0 and moves left); distinct by hash of (piece, from, to, k).".into();
     rep.assumptions = vec!["the model enumeration is the statement of C17".into()];
     rep.required_classes = vec!["pawn-with-backrank-destination", "pawn-mixed-promotion-and-plain", "non-pawn-with-backrank-destination", "empty-batch", "partially-consumed"];
     let cases = ctx.tier.scale(160_000, 30);
